@@ -1,6 +1,7 @@
 package main
 
 import (
+	"reflect"
 	"os"
 	"path/filepath"
 	"time"
@@ -24,13 +25,13 @@ type cliResult struct {
 }
 
 // runFile runs one command line (args + file) through klog.Run.
-func runFile(home string, config app.Config, args []string, file string) cliResult {
+func runFile(home string, config app.Config, args []string, files ...string) cliResult {
 	var code int
 	var runErr error
 	var pmsg string
 	out := captureStdout(func() {
 		pmsg = try(func() {
-			code, runErr = kmain.Run(app.NewFileOrPanic(home), app.Meta{}, config, append(append([]string{}, args...), file))
+			code, runErr = kmain.Run(app.NewFileOrPanic(home), app.Meta{}, config, append(append([]string{}, args...), files...))
 		})
 	})
 	if pmsg != "" {
@@ -41,6 +42,48 @@ func runFile(home string, config app.Config, args []string, file string) cliResu
 		r.err = runErr.Error()
 	}
 	return r
+}
+
+// runStdin runs a command without file arguments, the text arriving on standard input.
+func runStdin(home string, config app.Config, args []string, text string) cliResult {
+	f, err := os.CreateTemp("", "kdrive-stdin")
+	if err != nil {
+		panic(err)
+	}
+	defer os.Remove(f.Name())
+	f.WriteString(text)
+	f.Seek(0, 0)
+	old := os.Stdin
+	os.Stdin = f
+	defer func() { os.Stdin = old; f.Close() }()
+	return runFile(home, config, args)
+}
+
+// channels: the same text reaching klog through its other input channels: standard input, and as the
+// first of two files (the second one a fixed small record).
+func channels(o M, home string, config app.Config, dir, file, text string) {
+	sp := runStdin(home, config, []string{"print", "--no-style", "--no-warn"}, text)
+	o["stdin_print_code"] = sp.code
+	o["stdin_print"] = bytesToSym(sp.out)
+	o["stdin_print_err"] = bytesToSym(sp.err)
+	sj := runStdin(home, config, []string{"json"}, text)
+	o["stdin_json_code"] = sj.code
+	o["stdin_json"] = bytesToSym(sj.out)
+	o["stdin_json_raw"] = sj.out // decoded by the supervisor
+	fj := runFile(home, config, []string{"json"}, file)
+	o["file_json"] = bytesToSym(fj.out)
+	fp := runFile(home, config, []string{"print", "--no-style", "--no-warn"}, file)
+	o["file_print_code"] = fp.code
+	o["file_print"] = bytesToSym(fp.out)
+	other := filepath.Join(dir, "b-other.klg")
+	os.WriteFile(other, []byte("1999-12-31\n    1m second file\n"), 0644)
+	ob := runFile(home, config, []string{"print", "--no-style", "--no-warn"}, other)
+	o["other_print"] = bytesToSym(ob.out)
+	two := runFile(home, config, []string{"print", "--no-style", "--no-warn"}, file, other)
+	o["two_print_code"] = two.code
+	o["two_print"] = bytesToSym(two.out)
+	owt := runFile(home, config, []string{"print", "--no-style", "--no-warn"}, other, file)
+	o["two_print_rev"] = bytesToSym(owt.out)
 }
 
 // view: {text}: the parse result together with what the user-facing views show:
@@ -58,7 +101,7 @@ func hView(c M) M {
 	os.Mkdir(home, 0755)
 	file := filepath.Join(dir, "f.klg")
 	os.WriteFile(file, []byte(text), 0644)
-	fakeNow = time.Date(2020, 1, 1, 12, 0, 0, 0, time.UTC)
+	fakeNow = time.Date(2020, 1, 1, 12, 0, 0, 0, caseLoc)
 	app.VerifNow = func() time.Time { return fakeNow }
 	config := app.NewDefaultConfig(tf.COLOUR_THEME_NO_COLOUR)
 
@@ -82,6 +125,22 @@ func hView(c M) M {
 	jp := runFile(home, config, []string{"json", "--pretty"}, file)
 	o["json_pretty_raw"] = jp.out
 	o["file"] = file
+	// the same text as a second file whose name sorts before the first one: errors of several files
+	file0 := filepath.Join(dir, "e.klg")
+	o["file2"] = file0
+	o["multi_code"] = 0
+	o["multi_err"] = ""
+	o["json_multi_raw"] = ""
+	if o["ok"] != true {
+		os.WriteFile(file0, []byte(text), 0644)
+		pm := runFile(home, config, []string{"print", "--no-style", "--no-warn"}, file, file0)
+		o["multi_code"] = pm.code
+		o["multi_err"] = bytesToSym(pm.err)
+		jm := runFile(home, config, []string{"json"}, file, file0)
+		o["json_multi_raw"] = jm.out
+	}
+
+	channels(o, home, config, dir, file, text)
 
 	// a reconcile that changes nothing must reproduce the text
 	o["noop"] = ""
@@ -95,5 +154,42 @@ func hView(c M) M {
 			o["noop_ran"] = true
 		}
 	}
+	// the same through the application context and a real file: read, reconcile (change nothing), write back;
+	// with one CPU and with several (the context then parses in parallel)
+	o["noop_file_ran"] = false
+	o["noop_files"] = []string{}
+	if errs == nil && len(rs) > 0 {
+		got := []string{}
+		ran := true
+		for _, cpus := range []int{1, 3} {
+			f3 := filepath.Join(dir, "n.klg")
+			os.WriteFile(f3, []byte(text), 0644)
+			cfgN, cErr := app.NewConfig(app.FromDeterminedValues{NumCpus: cpus}, app.FromEnvVars{GetVar: func(string) string { return "" }}, app.FromConfigFile{FileContents: ""})
+			if cErr != nil {
+				panic(cErr.Error())
+			}
+			ctx := app.NewContext(app.NewFileOrPanic(home), app.Meta{}, tf.NewStyler(tf.COLOUR_THEME_NO_COLOUR), cfgN)
+			res, rErr := ctx.ReconcileFile(app.FileOrBookmarkName(f3), []reconciling.Creator{reconciling.NewReconcilerAtRecord(rs[0].Date())})
+			if rErr != nil {
+				ran = false
+				continue
+			}
+			b, _ := os.ReadFile(f3)
+			got = append(got, bytesToSym(string(b)), bytesToSym(res.AllSerialised))
+		}
+		o["noop_file_ran"] = ran
+		o["noop_files"] = got
+	}
+	// parallel parsing of the same text (the errors and records must be those of the serial parser)
+	par := []M{}
+	base := normalise(projectParse(serial, text))
+	for _, w := range list(c, "workers") {
+		n := num(M{"n": w}, "n")
+		p := projectParse(parser.NewParallelParser(n), text)
+		eq := reflect.DeepEqual(normalise(p), base)
+		pm := M{"n": n, "equal": eq}
+		par = append(par, pm)
+	}
+	o["par"] = par
 	return o
 }
